@@ -29,19 +29,20 @@ RULE = ("argument definitions of the documented shape: 0-4 optional tag slots (1
 ASSUMPTIONS = [
     "the definition interpreter in this file (written from README.rst) is the oracle",
     "UNSPEC (not compared): omitted trailing required arguments, a tag slot filled twice, a "
-    "single string where a stringlist-only parameter is declared, a parameter value that "
-    "differs from a permitted one in letter case only",
+    "parameter value that differs from a permitted one in letter case only",
+    "a single string is an accepted use of a parameter declared as (bare) stringlist: RFC 5228 "
+    "2.4.2.1, and the suite pins `vacation :addresses \"a@b\"` for a built-in declared that way",
     "definitions without any required argument are outside the claim",
 ]
 FLOORS = {
     "quick": {"definitions": 1500, "uses:ACCEPT": 15000, "uses:REJECT": 30000,
               "trees-compared": 15000, "roundtrips": 15000, "unregistered-probes": 5000,
-              "uses:UNSPEC": 1000, "derived-definitions": 300, "redefinitions": 300,
+              "accepted-uses-with-a-single-string-for-a-stringlist-parameter": 1000, "derived-definitions": 300, "redefinitions": 300,
               "uses-in-test-lists": 1000,
               "derived-uses:ACCEPT": 3000},
     "thorough": {"definitions": 8000, "uses:ACCEPT": 150000, "uses:REJECT": 150000,
                  "trees-compared": 150000, "roundtrips": 150000, "unregistered-probes": 16000,
-                 "uses:UNSPEC": 8000, "derived-definitions": 3000, "redefinitions": 3000,
+                 "accepted-uses-with-a-single-string-for-a-stringlist-parameter": 8000, "derived-definitions": 3000, "redefinitions": 3000,
                  "derived-uses:ACCEPT": 30000},
 }
 SHARD_TIMEOUT = {"quick": 600, "thorough": 3000}
@@ -224,7 +225,7 @@ def interpret(d, argtoks, required):
                         # RFC 5228 2.4.2.1: a single string is a string list; the README
                         # writes a parameter's type as a bare name and the suite pins
                         # `vacation :addresses "a@b"` for a built-in declared that way
-                        single_for_list = True
+                        expect.setdefault("notes", []).append("single-string-for-stringlist")
                     else:
                         return "REJECT", "parameter-type", None
                 if "values" in p and pk in ("string", "number") and \
@@ -453,6 +454,8 @@ def evaluate_definition(d, seed, others):
                 v = o.verdict()
                 cnt("uses:" + verdict)
                 cnt("cases")
+                if expect and "single-string-for-stringlist" in expect.get("notes", ()):
+                    cnt("accepted-uses-with-a-single-string-for-a-stringlist-parameter")
                 wit = {"definition": d, "script": data.decode("utf-8", "replace"),
                        "interpreter": [verdict, reason], "parser": str(v), "error": o.error}
                 if verdict == "UNSPEC":
